@@ -84,6 +84,8 @@ def mech_tok(spec):
             dfs.append(f"FAR {fr(s['far_enough'])}")
         elif f == "demelimit":
             dfs.append(f"DL {s['deme_limit']}")
+        elif f == "mahalanobis":
+            dfs.append("MAHA")
     tfs = ["SS" if f == "skipsame" else f"LL {s['level_limit']}" for f in s["tree_filters"]]
     return f"{gen} {len(dfs)} " + " ".join(dfs) + f" {len(tfs)} " + " ".join(tfs)
 
@@ -129,7 +131,14 @@ def env_tok(env):
             continue
         seen.add((g, sid))
         ds.append(f"{len(g)} " + " ".join(fr(t) for t in g) + f" {sid} " + ("-" if dist is None else fr(dist)))
-    return f"{len(nb)}" + "".join(" " + x for x in nb) + f" {len(ds)}" + "".join(" " + x for x in ds)
+    ms = []
+    seen = set()
+    for g, sid, inside in env.get("maha", []):
+        if (g, sid) in seen:
+            continue
+        seen.add((g, sid))
+        ms.append(f"{len(g)} " + " ".join(fr(t) for t in g) + f" {sid} " + ("1" if inside else "0"))
+    return f"{len(nb)}" + "".join(" " + x for x in nb) + f" {len(ds)}" + "".join(" " + x for x in ds) + f" {len(ms)}" + "".join(" " + x for x in ms)
 
 
 # ---------------------------------------------------------------- canonical dumps (python side)
@@ -243,7 +252,7 @@ def emit(run):
                     kinds.append("loop")
                 elif nxt[0] == "BOUNDARY":
                     # post-metaepoch consult was true: no round
-                    lines.append(f"tev round {genv} 0 0 0")
+                    lines.append(f"tev round {genv} 0 0 0 0")
                     expect.append(None)
                     kinds.append("round-skipped")
                 else:
@@ -404,7 +413,7 @@ RELEVANT = {
     "C07": {"structure", "levels", "id", "level", "parent", "startedAt", "children", "seed", "cls"},
     "C08": {"stage:LevelLimit", "active"},
     "C09": {"stage:FarEnough", "stage:NBC_FarEnough"},
-    "C10": {"stage:FarEnough", "stage:NBC_FarEnough", "stage:DemeLimit", "stage:LevelLimit", "stage:SkipSameSprout", "stage:BestPerDeme", "stage:NBC_Generator", "stage:NBCGeneratorWithLocalMethod", "sprout"},
+    "C10": {"stage:FarEnough", "stage:NBC_FarEnough", "stage:DemeLimit", "stage:LevelLimit", "stage:SkipSameSprout", "stage:BestPerDeme", "stage:NBC_Generator", "stage:NBCGeneratorWithLocalMethod", "stage:MahalanobisFarEnough", "sprout"},
     "C11": {"chain", "hist"},
     "C12": {"elitism", "size"},
     "C15": {"stage:NBC_Generator", "stage:NBCGeneratorWithLocalMethod"},
